@@ -4,6 +4,8 @@
 package e2
 
 import (
+	"encoding/json"
+	"bytes"
 	"context"
 	"errors"
 	"fmt"
@@ -63,10 +65,11 @@ type World struct {
 	Focus   map[string]bool
 	inCheck bool
 	// ViaHTTP: the ledgers' controllers send their writes and reads through the real HTTP API (see httpctrl.go)
-	ViaHTTP  bool
-	V1Writes bool // with ViaHTTP: writes use the v1 routes whenever v1 can express them
-	router   http.Handler
-	APICalls int
+	ViaHTTP        bool
+	V1Writes       bool // with ViaHTTP: writes use the v1 routes whenever v1 can express them
+	BigintAsString bool // with ViaHTTP: requests ask for amounts as strings (the API's own renderers)
+	router         http.Handler
+	APICalls       int
 	// PreOpen: the first PreOpen concurrent writers of runWriters use a controller chain opened before the run
 	PreOpen int
 }
@@ -157,7 +160,8 @@ func (w *World) wrap(name string, c ledgercontroller.Controller) ledgercontrolle
 	if w.router == nil {
 		w.router = w.Env.Router()
 	}
-	return &httpCtrl{Controller: c, router: w.router, name: name, calls: &w.APICalls, v1Writes: w.V1Writes}
+	return &httpCtrl{Controller: c, router: w.router, name: name, calls: &w.APICalls, v1Writes: w.V1Writes, bigintAsString: w.BigintAsString,
+		violation: func(code, msg string) { w.V(code, "%s", msg) }}
 }
 
 func (w *World) harness(format string, args ...any) {
@@ -488,6 +492,7 @@ func (w *World) CreateTx(l *LState, r TxRequest) TxOutcome {
 	if d := pcvDiff(tx.PostCommitVolumes, l.M.PostCommitAt(mtx)); d != "" {
 		w.V("C03", "postCommitVolumes of transaction %d: %s\nhistory:\n  %s\n  %s", *tx.ID, d, l.History(), desc)
 	}
+	w.checkRenderedTx(l, tx, desc)
 	if l.Has(features.FeatureMovesHistory, "ON") && l.Has(features.FeatureMovesHistoryPostCommitEffectiveVolumes, "SYNC") {
 		if d := pcvDiff(tx.PostCommitEffectiveVolumes, l.M.PostCommitEffectiveAt(mtx)); d != "" {
 			w.V("C04", "postCommitEffectiveVolumes of transaction %d: %s\nhistory:\n  %s\n  %s", *tx.ID, d, l.History(), desc)
@@ -834,4 +839,22 @@ func revertParams(r RevertRequest) ledgercontroller.Parameters[ledgercontroller.
 	}
 	return ledgercontroller.Parameters[ledgercontroller.RevertTransaction]{DryRun: r.DryRun, IdempotencyKey: r.IK,
 		Input: ledgercontroller.RevertTransaction{TransactionID: r.ID, Force: r.Force, AtEffectiveDate: r.AtEffectiveDate, Metadata: md}}
+}
+
+// checkRenderedTx renders the transaction as JSON (the core type's MarshalJSON, which computes preCommitVolumes) and
+// checks that the pre-commit volumes are the post-commit ones minus the transaction's own postings (C03).
+func (w *World) checkRenderedTx(l *LState, tx ledger.Transaction, desc string) {
+	b, err := json.Marshal(tx)
+	if err != nil {
+		w.V("C03", "transaction %v cannot be rendered as JSON: %v", tx.ID, err)
+	}
+	dec := json.NewDecoder(bytes.NewReader(b))
+	dec.UseNumber()
+	var doc map[string]any
+	if err := dec.Decode(&doc); err != nil {
+		w.harness("re-decoding a rendered transaction: %v", err)
+	}
+	if msg := preCommitProblem(doc); msg != "" {
+		w.V("C03", "%s (as rendered by Transaction.MarshalJSON)\nhistory:\n  %s\n  %s", msg, l.History(), desc)
+	}
 }
